@@ -69,12 +69,12 @@ def fuel_genes(ctx: Ctx, cfg, genotype):
     return genotype
 
 
-def pipeline(ctx: Ctx, cfg, check, on_error=None):
+def pipeline(ctx: Ctx, cfg, check, on_error=None, fxg=None, r=None):
     """create -> map -> (mutate | crossover)* ; `check(ctx, fx, g, program, stage)` on every
     phenotype.  Library errors end the path quietly (creation may fail with the library's own
     error type) unless on_error is given."""
-    fx, g = make_grammar(ctx, cfg)
-    r = FreshRandom(ctx)
+    fx, g = fxg if fxg is not None else make_grammar(ctx, cfg)
+    r = r if r is not None else FreshRandom(ctx)
     try:
         rep = make_rep(cfg, g, r)
         g1 = fuel_genes(ctx, cfg, rep.create_genotype(r))
